@@ -339,6 +339,10 @@ def whole_runs(ctx):
             (d / "tmp1").mkdir()
             (d / "tmp1" / "keep.txt").write_bytes(b"old run")
             (d / "tmp2").write_bytes(b"a file")
+            # files that look like somebody's staging / backup copies of the testcase: not this run's, not to be used or replaced
+            decoys = ["tc.txt.tmp", "tc.txt.part", "tc.txt~", ".tc.txt.swp", "tc.txt.bak", "tc.txt.new"]
+            for n in decoys:
+                (d / n).write_bytes(b"decoy " + n.encode())
             os.chdir(d)
             sys_tmp = set(os.listdir(tempfile.gettempdir()))
             lith, calls, path = make(d)
@@ -372,17 +376,17 @@ def whole_runs(ctx):
                 shutil.rmtree(os.path.join(tempfile.gettempdir(), n), ignore_errors=True)
             names = sorted(os.listdir(d))
             untouched = (d / "tmp1" / "keep.txt").read_bytes() == b"old run" and os.listdir(d / "tmp1") == ["keep.txt"] and \
-                (d / "tmp2").read_bytes() == b"a file"
+                (d / "tmp2").read_bytes() == b"a file" and all((d / n).is_file() and (d / n).read_bytes() == b"decoy " + n.encode() for n in decoys)
             if res[0] == "spin":
                 ctx.fail("fault-retry" if code is not None else "sequential",
                          "run() did not return within 10 s: create_temp_dir keeps retrying (working directory holds a directory tmp1 and a FILE tmp2)", case)
             elif code is not None:
                 if res[0] != "raise" or not isinstance(res[1], OSError) or res[1].errno != code or calls or new_sys or \
-                        names != ["tc.txt", "tmp1", "tmp2"] or not untouched or path.read_bytes() != b"a\nb\nc\n":
+                        names != sorted(["tc.txt", "tmp1", "tmp2"] + decoys) or not untouched or path.read_bytes() != b"a\nb\nc\n":
                     ctx.fail("fault-retry", f"run() with mkdir failing ({errno.errorcode[code]}): {res!r}, {len(calls)} tests ran, "
                              f"working directory {names}, new entries in the system temp directory {sorted(new_sys)}", case)
             else:
-                if res != ("ok", 0) or names != ["tc.txt", "tmp1", "tmp2", "tmp3"] or not untouched or new_sys or \
+                if res != ("ok", 0) or names != sorted(["tc.txt", "tmp1", "tmp2", "tmp3"] + decoys) or not untouched or new_sys or \
                         any(os.path.normpath(os.path.join(str(d), os.path.dirname(str(pfx)))) != str(d / "tmp3") for pfx in calls):
                     ctx.fail("sequential", f"run(): {res!r}, working directory {names}, prefixes {calls[:3]}, new entries in the system temp "
                              f"directory {sorted(new_sys)}", case)
